@@ -45,8 +45,8 @@ pub enum HasherKind {
 
 #[derive(Clone, Debug, Serialize, Deserialize, PartialEq, Eq)]
 pub enum InternOp {
-    GetOrIntern(u8),
-    Get(u8),
+    GetOrIntern(u16),
+    Get(u16),
     ResolveAll,
     Restart { hash_seed: u64 },
 }
@@ -786,7 +786,61 @@ fn eval_matcher(
     let pattern = pattern.to_vec();
     let texts = texts.to_vec();
     let r = process::run_process_with_stack(7, 1 << 20, move || {
-        let mut m = Matcher::new(Nevec::new_with_tail(pattern[0], pattern[1..].to_vec()));
+        // The pattern is a non-empty vector; build it through each of the type's constructors in
+        // turn (which one is a function of the pattern) and compare its own observations with the
+        // plain vector first.
+        let how = pattern.iter().map(|b| *b as usize).sum::<usize>() + pattern.len();
+        let nv: Nevec<u8> = match how % 4 {
+            0 => Nevec::new_with_tail(pattern[0], pattern[1..].to_vec()),
+            1 => {
+                let mut n = Nevec::new(pattern[0]);
+                for b in &pattern[1..] {
+                    n.push(*b);
+                }
+                n
+            }
+            2 => {
+                let mut n = Nevec::with_capacity(pattern[0], pattern.len());
+                for b in &pattern[1..] {
+                    n.push(*b);
+                }
+                n
+            }
+            _ => {
+                // Default is "one default element"
+                let mut n = Nevec::<u8>::default();
+                *n.last_mut() = pattern[0];
+                for b in &pattern[1..] {
+                    n.push(*b);
+                }
+                n
+            }
+        };
+        let seen: Vec<u8> = (&nv).into_iter().copied().collect();
+        let by_get: Vec<u8> = (0..pattern.len()).filter_map(|i| nv.get(i).copied()).collect();
+        // (Nevec::is_empty is documented as "returns whether the vector is non-empty, which it
+        // always is" and returns true; it is not judged.)
+        if nv.len() != pattern.len()
+            || seen != pattern
+            || by_get != pattern
+            || nv.get(pattern.len()).is_some()
+            || nv.last() != pattern.last().unwrap()
+            || nv[0] != pattern[0]
+        {
+            return Err(Violation {
+                class: "c20:nevec".into(),
+                detail: format!(
+                    "non-empty vector built by constructor {} from {:?}: len {} iter {:?} get {:?} last {}",
+                    how % 4,
+                    pattern,
+                    nv.len(),
+                    seen,
+                    by_get,
+                    nv.last()
+                ),
+            });
+        }
+        let mut m = Matcher::new(nv);
         let mut comparisons = 0u64;
         let mut overlaps = 0u64;
         let mut matches = 0u64;
@@ -922,16 +976,58 @@ impl Property for C20 {
             }
             3 => {
                 let pool = [
-                    "", "a", "b", "ab", "ba", "aa", "é", "par", "relax", "a b", "ß", "count",
+                    "", "a", "b", "ab", "ba", "aa", "\u{e9}", "par", "relax", "a b", "\u{df}", "count",
                     "abc", "cba", "\u{10FFFF}", "aaa",
+                    // strings that a line-, field- or quote-based encoding would mangle
+                    "\n", "\r", "a\n", "\nb", "\r\n", "x\r", "\t", " ", "\0", "\"", "\\", ",", "a,b", "[", "}",
+                    "\u{2028}", "\u{feff}", "\u{1d538}",
                 ];
-                let n = 2 + rng.below(10);
+                // One history in sixteen is big: 250 .. 310 strings (key tables and offsets beyond
+                // one byte) and a few very long strings.
+                let big = rng.chance(1, 16);
+                let n = if big { 250 + rng.below(61) } else { 2 + rng.below(10) };
                 let mut strings: Vec<String> = vec![];
-                for _ in 0..n {
-                    let s = pool[rng.below(pool.len())].to_string();
+                for k in 0..n {
+                    let s = if big && k % 4 != 0 {
+                        match k % 50 {
+                            7 => "l".repeat(255),
+                            17 => "l".repeat(256),
+                            27 => "m".repeat(70_000),
+                            _ => format!("n{k}"),
+                        }
+                    } else {
+                        pool[rng.below(pool.len())].to_string()
+                    };
                     if !strings.contains(&s) {
                         strings.push(s);
                     }
+                }
+                if big {
+                    let mut ops = vec![];
+                    for i in 0..strings.len() {
+                        ops.push(InternOp::GetOrIntern(i as u16));
+                        if rng.chance(1, 60) {
+                            ops.push(InternOp::Restart {
+                                hash_seed: rng.next_u64(),
+                            });
+                        }
+                    }
+                    ops.push(InternOp::Restart {
+                        hash_seed: rng.next_u64(),
+                    });
+                    for _ in 0..40 {
+                        let i = rng.below(strings.len()) as u16;
+                        ops.push(if rng.chance(1, 2) { InternOp::Get(i) } else { InternOp::GetOrIntern(i) });
+                    }
+                    ops.push(InternOp::ResolveAll);
+                    return Case::Interner {
+                        // a constant hasher makes 300 strings one chain of 300: keep it to the
+                        // other two here
+                        hasher: [HasherKind::Random, HasherKind::TwoBit][rng.below(2)],
+                        strings,
+                        first_hash_seed: rng.next_u64(),
+                        ops,
+                    };
                 }
                 let len = 2 + rng.below(40);
                 let p_restart = [0u32, 5, 12][rng.below(3)];
@@ -945,9 +1041,9 @@ impl Property for C20 {
                     } else if x < p_restart + 10 {
                         ops.push(InternOp::ResolveAll);
                     } else if x < p_restart + 35 {
-                        ops.push(InternOp::Get(rng.below(strings.len()) as u8));
+                        ops.push(InternOp::Get(rng.below(strings.len()) as u16));
                     } else {
-                        ops.push(InternOp::GetOrIntern(rng.below(strings.len()) as u8));
+                        ops.push(InternOp::GetOrIntern(rng.below(strings.len()) as u16));
                     }
                 }
                 ops.push(InternOp::ResolveAll);
@@ -957,6 +1053,23 @@ impl Property for C20 {
                     strings,
                     first_hash_seed: rng.next_u64(),
                     ops,
+                }
+            }
+            _ if rng.chance(1, 25) => {
+                // Long periodic patterns: borders of 250 .. 520 elements (table entries beyond one
+                // byte), texts that run the period, break it once and run it again.
+                let ulen = 1 + rng.below(3);
+                let unit: Vec<u8> = (0..ulen).map(|_| b'a' + rng.below(2) as u8).collect();
+                let plen = [250usize, 255, 256, 257, 258, 300, 511, 512, 520][rng.below(9)];
+                let pattern: Vec<u8> = (0..plen).map(|i| unit[i % ulen]).collect();
+                let mut t: Vec<u8> = (0..plen + rng.below(40)).map(|i| unit[i % ulen]).collect();
+                t.push(b'a' + rng.below(3) as u8);
+                let more = plen / 2 + rng.below(plen);
+                t.extend((0..more).map(|i| unit[i % ulen]));
+                Case::Matcher {
+                    pattern,
+                    texts: vec![t],
+                    restart_before: if rng.chance(1, 3) { Some((0, rng.next_u64())) } else { None },
                 }
             }
             _ => {
